@@ -41,6 +41,7 @@ fn main() {
         ("record", "scan") => drv_frame::rec_scan(&a, &mut out),
         ("record", "stream") => drv_frame::rec_stream(&a, &mut out),
         ("record", "corrupt") => drv_frame::rec_corrupt(&a, &mut out),
+        ("record", "link") => drv_frame::rec_link(&a, &mut out),
         ("record", "bits") => drv_bits::rec_bits(&a, &mut out),
         ("record", "build") => drv_build::rec_build(&a, &mut out),
         ("record", "history") => drv_build::rec_history(&a, &mut out),
